@@ -20,7 +20,7 @@ RULE = ("(supporting tests) corpus from one PRNG: the repository's module sample
         "format's headers and tables (PE: e_lfanew, NumberOfSections, SizeOfOptionalHeader, entry point, alignments, SizeOfImage/Headers, "
         "NumberOfRvaAndSizes, the 16 data directories, section table; ELF, Mach-O/fat, LNK, DEX, CRX, OLE/CF, ZIP headers) to 0, 1, all-ones, len, len+1, "
         "len-1, 0x7fffffff, own offset; cross-format splices; small and random bytes behind 12 valid magics; a PE whose resource directory is a "
-        "self-referential two-node graph (e = 40, 80, 128, 256 entries; regression inputs of the repaired quartic walk). Each input: child process with RLIMIT_AS = 3 GiB and a wall-time limit; "
+        "self-referential two-node graph (e = 40 ... 1200 entries, up to 20 KB; regression inputs of the repaired quartic / cubic walk). Each input: child process with RLIMIT_AS = 3 GiB and a wall-time limit; "
         "mods::invoke_all twice + once on a second thread (messages compared with PartialEq), a scan with rules importing every module twice; first "
         "call must finish within 4 s + 60 us/byte. PE outputs: every (rva, offset) pair visible (entry point, exports, resources) recomputed by "
         "Modules/Rva.v on the section table of the same file. Non-trivial: distinct (label, output size).")
@@ -96,9 +96,9 @@ def run_k(run, tier, seed, drv):
     if err:
         return {"broken": [("harness:c11", err)], "violations": []}
     if tier == "quick":
-        args = ["--seed", seed, "--samples", sdir, "--max-samples", 48, "--trunc", 10, "--fields", 12, "--bomb", "40,80,128,256", "--limit-ms", 20000]
+        args = ["--seed", seed, "--samples", sdir, "--max-samples", 48, "--trunc", 10, "--fields", 12, "--bomb", "40,80,128,256,512,800,1200", "--limit-ms", 20000]
     else:
-        args = ["--seed", seed, "--samples", sdir, "--max-samples", 400, "--max-size", 4000000, "--trunc", 64, "--fields", 64, "--bomb", "40,80,128,160,256,320", "--limit-ms", 30000]
+        args = ["--seed", seed, "--samples", sdir, "--max-samples", 400, "--max-size", 4000000, "--trunc", 64, "--fields", 64, "--bomb", "40,80,101,102,128,160,256,320,512,800,1200,4000", "--limit-ms", 30000]
     info = standard_k(run, drv, "C11", "c11", args, "K_C11_rva_to_offset", classify, max_report=50)
     info["rule"] = RULE
     return info
@@ -118,14 +118,15 @@ MANIFEST = {
                    "the (aligned) raw-data start of the section the loop settles on plus a displacement inside its raw data; and for the loop "
                    "skeletons of the parsers (counted parse, capped iterator, collect-to-cap, depth-guarded recursion) with the MAX_* constants "
                    "and guard shapes regenerated from the Rust source: iterations <= cap, depth <= limit. The PE resource walk (level cut and queue guard "
-                   "regenerated) is proved bounded by a cubic polynomial in the entries per directory, exact for a self-referential table. "
+                   "and the cap on examined entries regenerated) is proved to examine at most min(E(1+E+E^2), MAX_PE_RESOURCE_DIR_ENTRIES + 1) entries - a constant "
+                   "independent of the file - exact for a self-referential table. "
                    "Everything else the property says (no panic, stack, time, memory, determinism of the real modules on any bytes) is supported by "
                    "tests in resource-limited child processes over samples, truncations, field mutations, splices and magic+random inputs; the "
                    "model of rva_to_offset is compared with every (rva, offset) pair visible in the PE module's output."),
     "level_note": ("Not modelled: nom parsers, ASN.1, authenticode, protobuf, hashing; a theorem cannot exhibit stack overflow or allocation growth. "
-                   "Repaired after this check found it (c84671ba): the quartic walk of self-referential PE resource directories; the regression inputs stay in the corpus. "
-                   "Residual, measured on the repaired tree (dev profile) and NOT part of the corpus: the walk is still cubic in a 16-bit count - tables of "
-                   "512 / 800 / 1200 entries (9.7 / 14 / 20 KB) keep invoke_all busy 6.4 / 24 / 87 s, above the 4 s + 60 us/byte bound used here."),
+                   "Repaired after this check found them (c84671ba, 37a1e029): the quartic, then cubic walk of self-referential PE resource directories; "
+                   "the regression inputs (up to 1200 entries per directory, 20 KB) stay in the corpus and must meet the time bound. The counter counts "
+                   "entries after the offset filter; entries with invalid offsets are skipped uncounted (at most section length / 8 per directory)."),
     "technique": "Coq proofs over an exact model of rva_to_offset and over capped-loop skeletons with source-generated caps + resource-limited differential tests in child processes",
     "design_ref": "DESIGN.md section 4, C11",
 }
